@@ -4,7 +4,7 @@ import os
 
 from . import gen, stores
 from .c10 import LINKS, Scene, canon_model_ws, canon_ws, model_req
-from .util import md5hex, safe_call
+from .util import bump_mtime, md5hex, safe_call
 
 
 def check_noforce(ctx, rng):
@@ -396,12 +396,146 @@ def check_save_during_pass(ctx, rng):
         sc.close()
 
 
+def check_selective_prompt(ctx, rng):
+    """an interactive checkout: the prompt callback answers question by question - yes for some paths, no for others, or
+    yes to the first k questions only - while several workspace files hold bytes that are in no cache.  The target is
+    another version, the version the workspace came from (discarding the edits), or nothing (removal of the output).
+    An answer is given for the path named in the question and for nothing else: every file that is gone or has other
+    bytes afterwards was recoverable from the cache, or the user said yes to a question naming that file (or a directory
+    above it); a question answered no ends the checkout with PromptError."""
+    from dvc_data.hashfile.checkout import CheckoutError, LinkError, PromptError, checkout
+
+    sc = Scene(ctx, rng)
+    try:
+        prior = gen.rand_tree(rng, max_files=6, allow_odd=False)
+        while len(prior) < 2:
+            prior = gen.rand_tree(rng, max_files=6, allow_odd=False)
+        t1 = sc.put_tree(prior)
+        existing = rng.choice(LINKS)
+        link = existing if rng.random() < 0.7 else rng.choice(["copy", "hardlink"])
+        sc.checkout(t1, [existing], force=True)
+        mode = rng.choice(["other_version", "other_version", "same_version", "remove_output"])
+        target = dict(prior)
+        if mode == "other_version":
+            for k in list(prior):
+                r = rng.random()
+                if r < 0.4:
+                    target[k] = prior[k] + b"#v2"
+                elif r < 0.55 and len(target) > 1:
+                    del target[k]
+            if rng.random() < 0.3:
+                target[("added",)] = b"brand new"
+        t2 = sc.put_tree(target)
+        # the user's work: at least two files (when there are two) now hold bytes that exist nowhere else
+        files = sorted(sc.bytes_snapshot())
+        n_edit = rng.randrange(2, len(files) + 1) if len(files) >= 2 else 1
+        edits = []
+        for rel in rng.sample(files, n_edit):
+            p = os.path.join(sc.ws, rel)
+            os.remove(p)
+            with open(p, "wb") as f:
+                f.write(b"user-edit-%d-" % rng.randrange(10**6) + rel.encode())
+            bump_mtime(p, 3_000_000_000)
+            edits.append(["replace_uncached", rel])
+        if rng.random() < 0.35:
+            rel = "user-file-%d" % rng.randrange(100)
+            with open(os.path.join(sc.ws, rel), "wb") as f:
+                f.write(b"precious-%d" % rng.randrange(10**6))
+            edits.append(["add_uncached", rel])
+        if rng.random() < 0.25:
+            # some of the old version has left the cache as well: the untouched files holding it are not recoverable either
+            for k, c in prior.items():
+                h = md5hex(c)
+                p = sc.cache_path(h)
+                if existing != "symlink" and link != "symlink" and h not in {md5hex(x) for x in target.values()} \
+                        and os.path.exists(p) and rng.random() < 0.5:
+                    os.chmod(p, 0o644)
+                    os.remove(p)
+                    edits.append(["object_left_cache", "/".join(k)])
+        before_bytes = sc.bytes_snapshot()
+        recoverable = {rel: (b is not None and sc.intact_in_cache(b)) for rel, b in before_bytes.items()}
+        at_risk = sorted(rel for rel, ok in recoverable.items() if not ok)
+        # how the user answers
+        policy = rng.choice(["by_path", "by_path", "first_k"])
+        if policy == "by_path":
+            yes_paths = {rel for rel in at_risk if rng.random() < 0.5}
+            shape = rng.random()
+            if shape < 0.25:
+                yes_paths = set(at_risk)  # the user agrees to everything
+            elif shape < 0.85 and len(at_risk) >= 2:
+                # a mixed answer: at least one yes and one no
+                a, b = rng.sample(at_risk, 2)
+                yes_paths.add(a)
+                yes_paths.discard(b)
+            yes_dir = rng.random() < 0.6
+            how = {"policy": policy, "yes_for": sorted(yes_paths), "yes_for_the_directory": yes_dir}
+        else:
+            first_k = rng.randrange(0, len(at_risk) + 2)
+            if len(at_risk) >= 2 and rng.random() < 0.7:
+                first_k = rng.randrange(1, len(at_risk))
+            how = {"policy": policy, "yes_to_the_first": first_k}
+        asked = []  # [path named in the question relative to the workspace ('.' = the output itself), answer]
+
+        def prompt(msg):
+            named = msg[msg.index("'") + 1:msg.rindex("'")] if msg.count("'") >= 2 else msg
+            rel = os.path.relpath(named, sc.ws) if os.path.isabs(named) else named
+            if policy == "first_k":
+                answer = len(asked) < first_k
+            elif rel == ".":
+                answer = yes_dir
+            else:
+                answer = rel in yes_paths
+            asked.append([rel, answer])
+            return answer
+
+        relink = rng.random() < 0.3
+        if mode == "remove_output":
+            kind, r = safe_call(lambda: checkout(sc.ws, sc.fs, None, sc.odb, force=False, state=sc.state, prompt=prompt, quiet=True),
+                                expected=(PromptError, CheckoutError, LinkError))
+            res = {"ok": bool(r)} if kind == "ok" else {"err": r}
+        else:
+            res = sc.checkout(t2, [link], force=False, relink=relink, prompt=prompt)
+        after_bytes = sc.bytes_snapshot()
+        case = {"selective_prompt": {"prior": {"/".join(k): v.decode("latin1") for k, v in prior.items()},
+                                     "target": None if mode == "remove_output" else {"/".join(k): v.decode("latin1") for k, v in target.items()},
+                                     "mode": mode, "existing": existing, "link": link, "relink": relink, "edits": edits,
+                                     "not_recoverable_before": at_risk, "answers": how, "local": sc.local, "state": sc.state is not None}}
+        yes_n = sum(1 for _, a in asked if a)
+        no_n = len(asked) - yes_n
+        ctx.case(case, nontrivial=len(at_risk) >= 2)
+        ctx.count("selective_prompt: mode=%s policy=%s" % (mode, policy))
+        ctx.count("selective_prompt: answers yes=%s no=%s" % (min(yes_n, 2), min(no_n, 1)))
+        ctx.count("selective_prompt outcome:" + ("ok" if "ok" in res else res["err"]))
+
+        def confirmed(rel):
+            for q, a in asked:
+                if a and (q == rel or q == "." or rel.startswith(q.rstrip(os.sep) + os.sep)):
+                    return True
+            return False
+
+        for rel, b in before_bytes.items():
+            if after_bytes.get(rel) != b:
+                ctx.oracle(recoverable[rel] or confirmed(rel), case,
+                           {"why": "checkout without force removed or overwrote a file whose content is not in the cache, and the "
+                                   "prompt was never answered affirmatively for that file (an answer given for another path was reused, or no question was asked)",
+                            "path": rel, "questions_and_answers": list(asked), "outcome": res, "before_md5": md5hex(b or b"")})
+        if no_n:
+            ctx.oracle(res.get("err") == "PromptError", case,
+                       {"why": "the prompt declined the removal of a path, yet the checkout did not end with PromptError",
+                        "questions_and_answers": list(asked), "outcome": res})
+        elif "err" in res and res["err"] == "PromptError":
+            ctx.oracle(False, case, {"why": "PromptError although every question that was asked got an affirmative answer",
+                                     "questions_and_answers": list(asked), "outcome": res})
+    finally:
+        sc.close()
+
+
 def run(ctx):
     ctx.rule = (
         "workspace checked out from one directory object (copy/hardlink/symlink, both store classes, with/without state), then user "
         "edits (replace by uncached content, replace by cached content, delete, add an untracked file), optionally the old version "
         "leaving the cache, then a checkout of another object without force, relink on/off, prompt absent or declining, some target "
-        "objects missing, the workspace checked out with another link type than the configured one, objects of unchanged files gone from the cache; removal of an output (checkout of no object) with file objects gone from the cache while the directory object stays; workspaces hashed earlier under the text-normalising md5 through a shared state while the md5 cache holds only the LF twins of their CRLF files; link histories record/modify/replace/remove/clean-up with in-use lists and non-normalised root spellings; a real State and a hashing pass over the workspace (status or staging) during which the user saves files - right after the pass has read them or before it reaches them, in place or by replacement, every timestamp distinct - followed later by a checkout of another version without force (refusal and untouched bytes checked). "
+        "objects missing, the workspace checked out with another link type than the configured one, objects of unchanged files gone from the cache; removal of an output (checkout of no object) with file objects gone from the cache while the directory object stays; workspaces hashed earlier under the text-normalising md5 through a shared state while the md5 cache holds only the LF twins of their CRLF files; link histories record/modify/replace/remove/clean-up with in-use lists and non-normalised root spellings; a real State and a hashing pass over the workspace (status or staging) during which the user saves files - right after the pass has read them or before it reaches them, in place or by replacement, every timestamp distinct - followed later by a checkout of another version without force (refusal and untouched bytes checked); interactive checkouts whose prompt callback answers question by question (yes for some paths and no for others, or yes to the first k questions only) with at least two workspace files holding bytes that are in no cache, towards another version / the same version / no object: a lost file was recoverable or confirmed by name, a declined question ends in PromptError. "
         "non-trivial = the workspace holds at least one file whose content is not in the cache"
     )
     ctx.assumptions = ["the hash-state cache is coherent (C13): a stale cached hash of a user file would make in_cache lie "
@@ -416,6 +550,8 @@ def run(ctx):
         check_legacy_twin(ctx, ctx.rng)
     for _ in range(ctx.n(40, 400)):
         check_save_during_pass(ctx, ctx.rng)
+    for _ in range(ctx.n(40, 400)):
+        check_selective_prompt(ctx, ctx.rng)
 
 
 def search(ctx):
@@ -429,6 +565,8 @@ def search(ctx):
         check_legacy_twin(ctx, ctx.rng)
     for _ in range(400):
         check_save_during_pass(ctx, ctx.rng)
+    for _ in range(400):
+        check_selective_prompt(ctx, ctx.rng)
 
 
 def replay(ctx, payload):
